@@ -206,3 +206,45 @@ def run(rep, programs):
 EXPLANATION = EXPLANATION + (
     " Further premises: R-RECOVER-DOMAIN / R-RECOVER-COMPLETE (recover's bitfield index stays in range), R-SET-START-SAME-TREE (no slot claims a tree it does not hold: `Unreserve failed`)."
 )
+
+
+def p_packed_widths(rep, prog):
+    """The counters live in bit-packed words (bitfield_struct). A counter field must be able to hold its largest legal value in
+    *this* configuration - all frames of a tree / of a huge frame free - or the setter panics (debug) or truncates (release)."""
+    rule = "P-PACKED-WIDTHS"
+    rep.rule(rule, "Tree::FREE_BITS and LocalTree::FREE_BITS hold TREE_FRAMES, HugeEntry::COUNT_BITS holds HUGE_FRAMES, "
+                   "Tree::CLASS_BITS holds every class (Class::BITS)")
+    c = prog.crate("llfree").consts
+
+    def val(n):
+        v = c.get(n)
+        return int(v) if v is not None else None
+    tf, hf, cb = val("llfree::TREE_FRAMES"), val("llfree::HUGE_FRAMES"), val("llfree::Class::BITS")
+    n = 0
+    for name, need, what in (("llfree::trees::Tree::FREE_BITS", tf, "TREE_FRAMES"),
+                             ("llfree::local::LocalTree::FREE_BITS", tf, "TREE_FRAMES"),
+                             ("llfree::lower::HugeEntry::COUNT_BITS", hf, "HUGE_FRAMES")):
+        bits = val(name)
+        short = name.replace("llfree::", "")
+        if bits is None or need is None:
+            rep.check(True, rule, short, "undecided: constant not found (another encoding)")
+            rep.note("%s: %s not found; the capacity of the packed counter is undecided" % (rule, short))
+            continue
+        n += 1
+        rep.check((1 << bits) > need, rule, short, "2^%d > %s = %d" % (bits, what, need),
+                  "%s = %d bits cannot hold the value %s = %d (a completely free tree / huge frame) in this configuration" % (
+                      short, bits, what, need))
+    bits = val("llfree::trees::Tree::CLASS_BITS")
+    if bits is not None and cb is not None:
+        n += 1
+        rep.check(bits >= cb, rule, "trees::Tree::CLASS_BITS", "%d >= Class::BITS = %d" % (bits, cb),
+                  "Tree::CLASS_BITS = %d cannot hold every class (Class::BITS = %d): classes alias when read back from a tree entry" % (bits, cb))
+    rep.floor(rule, "packed field capacities decided", n, 3)
+
+
+_run_c09w = run
+
+
+def run(rep, programs):  # noqa: F811
+    _run_c09w(rep, programs)
+    p_packed_widths(rep, programs["core"])
